@@ -269,3 +269,35 @@ func VerifH_C09_no_waiting_window() {
 	}
 	verifEpilogue(e, r, false)
 }
+
+// C17: while the step runs, another goroutine observes it the way the run loop's detector does
+// (State, CurrentStage) and a third one delivers the stop condition; the caller closes the step.
+func VerifH_C17_plugin_observed() {
+	e := verifNewEnv(true)
+	r := verifStart(e)
+	given := map[string]bool{}
+	n := verifrt.Choice("inputs", 4)
+	for a := 0; a < n; a++ {
+		verifAct(e, r, given, a)
+	}
+	obs := make(chan struct{})
+	go func() {
+		_ = r.State()
+		_ = r.CurrentStage()
+		close(obs)
+	}()
+	stop := make(chan struct{})
+	go func() {
+		_ = r.ProvideStageInput("cancelled", map[string]any{"stop_if": true})
+		close(stop)
+	}()
+	if verifrt.Choice("settle", 2) == 1 {
+		verifrt.Settle()
+	}
+	err := r.ForceClose()
+	verifrt.Assert(err == nil, "ForceClose returns no error")
+	<-obs
+	<-stop
+	verifrt.Settle()
+	verifrt.Assert(verifrt.LiveGoroutines() == 0, "no goroutine of the step survives Close")
+}
